@@ -70,6 +70,8 @@ def build_machine(total, plan, rec, use_async=False, yields=0):
     if not use_async:
         def on_tick(self, who=None):
             s = body_pre(self, who)
+            if evkey(who) in plan.get("listen", []):
+                self.add_listener(type("EmptyListener", (), {})())     # a listener without callbacks: nothing changes
             if evkey(who) in plan.get("nested", []):
                 rec.nested += 1
                 k = rec.nested
@@ -85,6 +87,8 @@ def build_machine(total, plan, rec, use_async=False, yields=0):
             s = body_pre(self, who)
             for _ in range(yields):
                 await asyncio.sleep(0)
+            if evkey(who) in plan.get("listen", []):
+                self.add_listener(type("EmptyListener", (), {})())
             if evkey(who) in plan.get("nested", []):
                 rec.nested += 1
                 k = rec.nested
@@ -154,6 +158,18 @@ def is_hot(code, lineno):
     return _hot_cache[key]
 
 
+_clear_cache = {}
+
+
+def is_clear(code, lineno):
+    """The statement that drops what is queued after a failure (found by its text: `<queue>.clear()`)."""
+    key = (code, lineno)
+    if key not in _clear_cache:
+        import linecache
+        _clear_cache[key] = bool(re.search(r"queue\w*\.clear\(\)", linecache.getline(code.co_filename, lineno)))
+    return _clear_cache[key]
+
+
 class LineScheduler:
     def __init__(self, n, schedule, codes):
         self.n = n
@@ -200,8 +216,15 @@ class LineScheduler:
         codes = self.codes
         put_code, on_put = getattr(self, "put_code", None), getattr(self, "on_put", None)
 
+        on_clear = getattr(self, "on_clear", None)
+        cleared = {}        # frame -> the line that empties the queue has started
+
         def local(frame, event, arg):
+            if on_clear is not None and cleared.pop(frame, False):
+                on_clear(tid)      # ... and is done now (next line, return or exception of that frame)
             if event == "line":
+                if on_clear is not None and is_clear(frame.f_code, frame.f_lineno):
+                    cleared[frame] = True
                 self.boundary(tid, is_hot(frame.f_code, frame.f_lineno))
             elif event == "return" and frame.f_code is put_code and on_put is not None:
                 on_put(tid)        # the engine's put() has returned: the event is in the queue (or should be)
@@ -227,6 +250,7 @@ def run_threads(nsenders, per, plan, schedule):
         from statemachine.engines.base import BaseEngine
         sched.put_code = BaseEngine.put.__code__
         sched.on_put = lambda tid: rec.lines.append({"e": "put", "s": tid})
+        sched.on_clear = lambda tid: rec.lines.append({"e": "clr", "s": tid})
     except Exception:  # noqa: BLE001 - restructured: puts stay internal steps that TLC infers
         sched.put_code = None
     errors = []
